@@ -13,6 +13,7 @@ import json
 import random
 import signal
 import types
+import zlib
 from typing import Any, Dict, List
 
 from .. import tlc
@@ -47,8 +48,15 @@ from ..repo import Hang, with_watchdog  # noqa: E402,F401  (shared CPU-time watc
 
 
 # ---- driving the real code ------------------------------------------------------------------
-def decode_real(kind: str, tbl: List[int], stream=None):
-    """-> ("ok", fat_object) | ("error", text) | ("hang", "")"""
+def roland_unused_truthful(tbl: List[int]) -> int:
+    """What a real disk stores in word 1 of the FAT: the clusters that are not allocated."""
+    n = len(tbl)
+    return (n - 2) - sum(1 for w in tbl[2:n - 9] if w != 0)
+
+
+def decode_real(kind: str, tbl: List[int], stream=None, unused=None):
+    """-> ("ok", fat_object) | ("error", text) | ("hang", "")
+    unused: the header's count of unused clusters (Roland); the specification's decoder does not consult it"""
     if kind == "akai":
         from construct import Int16ul
         from smpl_extract.akai.sat import SegmentAllocationTableAdapter
@@ -62,7 +70,7 @@ def decode_real(kind: str, tbl: List[int], stream=None):
         n = len(tbl)
         cont = types.SimpleNamespace(
             fat_entries=list(tbl),
-            metadata=types.SimpleNamespace(fat_id=tbl[0], num_unused_clusters=tbl[1],
+            metadata=types.SimpleNamespace(fat_id=tbl[0], num_unused_clusters=tbl[1] if unused is None else unused,
                                            version_flag_1=tbl[-2], version_flag_2=tbl[-1]),
             stream_size=0, fat_data_stream=stream)
 
@@ -111,11 +119,19 @@ def stream_bytes(path: List[int], n: int, sector: int = 4) -> bytes:
     return a, b, want
 
 
-def replay_case(chk: Check, case: Dict[str, Any], tbl=None, shift=lambda k: k, label="small"):
+def replay_case(chk: Check, case: Dict[str, Any], tbl=None, shift=lambda k: k, label="small", header=None):
     """Compare the real code with the specification's prediction on one table (all starts)."""
     kind = case["kind"]
     table = tbl if tbl is not None else case["tbl"]
-    status, fat = decode_real(kind, table)
+    if kind == "roland" and header is None:
+        # the FAT header's count of unused clusters is not part of the allocation (AllocTable.tla never reads it): every
+        # table is judged with the count a real disk would carry, and one table in four also with 0 and with an overstated count
+        replay_case(chk, case, tbl, shift, label, header=roland_unused_truthful(table))
+        if zlib.crc32(repr(case["tbl"]).encode()) % 4 == 0:
+            replay_case(chk, case, tbl, shift, label + "/count=0", header=0)
+            replay_case(chk, case, tbl, shift, label + "/count=all", header=len(table) - 2)
+        return
+    status, fat = decode_real(kind, table, unused=header)
     key = (label, kind, tuple(case["tbl"]))
     wf_any = any(s["expected"] for s in case["starts"])
     chk.evaluated(key, nontrivial=wf_any or case["decode"]["kind"] != "ok")
@@ -158,7 +174,7 @@ def replay_case(chk: Check, case: Dict[str, Any], tbl=None, shift=lambda k: k, l
                               f"expected {exp}, code resolved {got}")
                 agreed = False
                 continue
-            if label == "small":
+            if label.startswith("small"):
                 try:
                     a, b, want = stream_bytes(exp, len(table))
                     bad = None if (a == want and b == want) else "does not yield the concatenation of its sectors"
